@@ -303,3 +303,37 @@ func VerifFlvMuxerOrder() {
 	symapi.Settle()
 	symapi.Reach("end")
 }
+
+// VerifFlvBigTags: tags of every size class (one byte up to a NAL larger than 64 KiB) written
+// to a client that joined mid-stream (first tag at a non-zero decode time): every tag's
+// timestamp is rebased on the first, its size fields are exact and its data intact.
+func VerifFlvBigTags() {
+	rec := &verifRec{}
+	w, err := NewWriter(rec, 5)
+	symapi.Assert(err == nil, "writer-created")
+	t0 := symapi.Uint32("firstTimestamp")
+	symapi.Assume(t0 < 1<<30)
+	first := &Tag{TagType: TagTypeVideo, Timestamp: t0, Data: []byte{0x17, 1, 0, 0, 0, 0, 0, 0, 1, 0x65}}
+	symapi.Assert(w.WriteFlvTag(first) == nil, "tag-written")
+	n := []int{1, 255, 65000, 65524, 65525, 65536, 71680, 1 << 17}[symapi.Choose("size", 8)]
+	data := make([]byte, n)
+	for i := range data {
+		data[i] = byte(i%251) + 1
+	}
+	data[0] = 0x27
+	big := &Tag{TagType: TagTypeVideo, Timestamp: t0 + 80, Data: data}
+	symapi.Assert(w.WriteFlvTag(big) == nil, "tag-written")
+	out := rec.buf
+	pos := 13 + 11 + len(first.Data) + 4
+	symapi.Assert(len(out) == pos+11+n+4, "stream-length")
+	h := out[pos : pos+11]
+	size := int(h[1])<<16 | int(h[2])<<8 | int(h[3])
+	symapi.Assert(size == n, "tag-data-size")
+	ts := uint32(h[4])<<16 | uint32(h[5])<<8 | uint32(h[6]) | uint32(h[7])<<24
+	symapi.Assert(ts == 80, "timestamp-rebased-on-first-tag")
+	symapi.Assert(out[pos+11] == 0x27 && out[pos+11+n-1] == data[n-1], "tag-data-first-and-last-byte")
+	p := pos + 11 + n
+	prev := uint32(out[p])<<24 | uint32(out[p+1])<<16 | uint32(out[p+2])<<8 | uint32(out[p+3])
+	symapi.Assert(prev == uint32(11+n), "previous-tag-size")
+	symapi.Reach("end")
+}
